@@ -642,9 +642,17 @@ func (x *XRefParser) ParseAllXRefs() ([]*XRefTable, error) {
 
 	tables := []*XRefTable{mainTable}
 
-	// Parse previous XRefs
+	// Parse previous XRefs. A damaged file may chain /Prev back into a section
+	// that was already read; following it again would never end.
+	seenPrev := make(map[int64]bool)
 	currentTable := mainTable
 	for {
+		if prevInt, ok := currentTable.Trailer.Get("Prev").(Int); ok {
+			if seenPrev[int64(prevInt)] {
+				return nil, fmt.Errorf("cross-reference /Prev chain loops at offset %d", int64(prevInt))
+			}
+			seenPrev[int64(prevInt)] = true
+		}
 		prevTable, err := x.ParsePrevXRef(currentTable)
 		if err != nil {
 			return nil, fmt.Errorf("failed to parse prev xref: %w", err)
